@@ -14,7 +14,7 @@ TRUSTED = ["TLC 1.8 (tla2tools)", "spec/Num.tla, Algebra.tla, Lattice.tla, Cases
 
 
 def run_cases(tier, modes=("mp", "f64"), groups=None):
-    cases, stats = tlc.gen_cases(tier, groups)
+    cases, stats = tlc.gen_cases(tier, groups or tlc.CASE_GROUPS)
     out = {"cases": cases, "stats": stats, "modes": {}}
     for mode in modes:
         out["modes"][mode] = algebra.replay(cases, tier, mode)
@@ -84,7 +84,7 @@ def trace_records(run, select_case, step):
     operands' denotation).  Returns (records, summary)."""
     import mpmath
 
-    cases = [c for c in run["cases"] if select_case(c)][::step]
+    cases = [c for c in run["cases"] if select_case(c) and not c["op"].startswith("rawtau_")][::step]
     events = algebra.record_trace(cases, seed=common.seed())
     verdicts, summary, st = algebra.validate_trace(events)
     recs = []
@@ -149,10 +149,11 @@ RANGE_OPS = {"phi", "deltaphi", "theta", "deltaangle", "rho", "mag", "rho2", "ma
 
 
 def check_c13(tier):
-    run = run_cases(_tier(tier), groups=["unary", "binnum", "pred"])
+    run = run_cases(_tier(tier), groups=["unary", "binnum", "pred", "rawtau"])
     recs = flatten(run, lambda r: r["kind"] == "range" or (r["case"]["op"] in PRED_OPS and r["kind"] in ("C01", "C02", "error"))
-                   or (r["case"]["op"] in RANGE_OPS and r["kind"] == "C02"))
-    return _finish("C13", tier, run, recs, lambda c: c["op"] in PRED_OPS or c["op"] in RANGE_OPS)
+                   or (r["case"]["op"] in RANGE_OPS and r["kind"] == "C02")
+                   or (r["case"]["op"].startswith("rawtau_") and r["kind"] in ("C01", "C02", "error")))
+    return _finish("C13", tier, run, recs, lambda c: c["op"] in PRED_OPS or c["op"] in RANGE_OPS or c["op"].startswith("rawtau_"))
 
 
 def replay_file(prop, path):
